@@ -11,7 +11,7 @@ claimed = {
     text="Bounded symbolic execution of the real CleanPath from go/ssa: for every input of 0..N bytes over the full byte "
          "alphabet the solver shows, path class by path class, that the result equals an independent split/stack/join "
          "reference, that CleanPath is idempotent, and that no run-time panic is reachable. Exhaustive within the length "
-         "bound (quick N=7, thorough N=9); nothing beyond it.",
+         "bound (quick N=9, thorough N=10; plus 120..135-byte inputs with a symbolic window across the 128-byte buffer); nothing beyond it.",
     design="5 C17", technique="bounded symbolic execution of go/ssa + SMT (z3, QF_BV), differential against reference model, native replay"),
 }
 
@@ -20,7 +20,9 @@ claimed["C10"] = dict(
          "recogniser of the documented grammar: for every pattern string up to N bytes over the full byte alphabet and three "
          "parameter-limit configurations, acceptance == grammar (outside the stated don't-care regions), rejection is "
          "ErrInvalidRoute, accessors are consistent, and no run-time panic is reachable. Exhaustive within the bound "
-         "(quick N=6, thorough N=8).",
+         "(quick N=6, thorough N=8). Every accepted pattern within the bound, and every accepted pattern assembled from a "
+         "catalogue of segment forms (also after a neighbour route was registered and deleted), is routed as the only route "
+         "and the reported parameters reproduce the request.",
     design="5 C10", technique="bounded symbolic execution of go/ssa + SMT (z3, QF_BV), differential against grammar recogniser, native replay")
 
 claimed["C01"] = dict(
@@ -36,7 +38,7 @@ T = "bounded symbolic execution of go/ssa + SMT (z3, QF_BV), differential agains
 claimed["C08"] = dict(
     text="All six obligations by bounded symbolic execution of the real code: (a) soundness, (b) completeness, (c) priority "
          "of the trailing-slash recommendation against the reference R-tsr (priority DFS on the slash-toggled path, host "
-         "mode first); (d) dispatch in ServeHTTP for GET/POST/CONNECT under five ignore/redirect configurations (served by "
+         "mode first); (d) dispatch in ServeHTTP for GET/POST/CONNECT under six ignore/redirect configurations (served by "
          "the route with the adjusted parameters / 301 or 308 only for clean paths / otherwise unmatched); (e) the Location "
          "header, resolved by an RFC 3986 section 5.2 reference resolver in the harness, has the same authority, no "
          "fragment, decodes to the slash-adjusted path and keeps the raw query, for every path byte incl. reserved "
@@ -45,7 +47,8 @@ claimed["C08"] = dict(
 claimed["C09"] = dict(
     text="Bounded symbolic execution of the real lookup (incl. netutil.StripHostPort and net.SplitHostPort from source) for "
          "every Host header up to N bytes: hostname routes match only the whole host after port / trailing-dot removal, label "
-         "for label; path-only routes are the fallback; methods without hostname routes ignore the Host. Hosts with brackets "
+         "for label; path-only routes are the fallback; methods without hostname routes ignore the Host; Router.Reverse decides "
+         "hosts exactly like the request lookup. Hosts with brackets "
          "or several colons are a stated don't-care region of the reference.",
     design="5 C09", technique=T)
 claimed["C16"] = dict(
@@ -63,22 +66,24 @@ claimed["C02"] = dict(
          "and wildcard-conflict rules: all histories of k writes over a pattern pool (each write direct, in a committed or in "
          "an aborted transaction) from several start sets, plus writes whose pattern is a fully symbolic byte string; after "
          "every step every reader must equal the model, errors must be the predicted sentinel (conflicts naming exactly the "
-         "predicted routes) and failed calls change nothing. Histories are enumerated by the executor's decision search; "
+         "predicted routes), failed calls change nothing, and Reverse / Iter.Reverse of every observed view select the route "
+         "the model prescribes. Histories are enumerated by the executor's decision search; "
          "pattern bytes are solver-quantified.",
     design="5 C02", technique=T)
 
 claimed["C07"] = dict(
-    text="A/B harness: router A (corpus set inserted in canonical order) versus router B (same set reached through one of 9 "
+    text="A/B harness: router A (corpus set inserted in canonical order) versus router B (same set reached through one of 10 "
          "mutation histories executed by the real write path); bounded symbolic execution of Lookup and ServeHTTP on both for "
          "every Host/path within the bounds and four request methods shows identical route, parameters, trailing-slash "
-         "outcome, status, handler kind and Allow header.",
+         "outcome, status, handler kind and Allow header, and that the route serving a request is the object currently "
+         "registered under its pattern.",
     design="5 C07", technique="bounded symbolic execution of go/ssa + SMT (z3, QF_BV), A/B differential between two real routers, native replay")
 claimed["C11"] = dict(
     text="Bounded symbolic execution of the real ServeHTTP unmatched-request path on multi-method corpus routers against the "
          "reference (per-method R-match/R-tsr giving the set of methods that serve the host and path directly or by ignoring "
          "a trailing slash): handler kind (404/405/OPTIONS), scope, absence of route/pattern/parameters in the context and "
          "the Allow header (compared as a set) for every Host/path within the bounds, the target '*', five request methods "
-         "and the four option combinations.",
+         "and the four option combinations; also for percent-encoded requests (RawPath set).",
     design="5 C11", technique=T)
 
 claimed["C03"] = dict(
@@ -112,13 +117,14 @@ claimed["C15"] = dict(
          "http.ErrAbortHandler (same value), 500 iff nothing written and not a broken connection, otherwise response "
          "untouched; one ERROR record naming route, parameters and request line; afterwards routes unchanged, requests "
          "served, writer lock free. Redaction: the header name is a symbolic byte string constrained byte-wise to a case "
-         "variant of each credential header, so all 2^n spellings are decided by the solver at once. Panics inside managed "
-         "transactions are decided by C04.",
+         "variant of each credential header, so all 2^n spellings are decided by the solver at once. Managed transactions: a "
+         "panic after every step of every short write sequence inside Updates (run by a handler under Recovery, or called "
+         "directly) and inside View leaves routes, iteration, routing and later requests unchanged and the writer lock free.",
     design="5 C15", technique="bounded symbolic execution of go/ssa + SMT (z3, QF_BV) with a case-variant constraint over header-name bytes; native replay")
 claimed["C20"] = dict(
     text="Bounded symbolic execution of the real Logger middleware (LoggerWithHandler, level, roundLatency, Context.ClientIP / "
          "RemoteIP) through ServeHTTP for every status code 100..999 (solver), implicit 200, redirects with and without "
-         "Location, no write and panic, in five handler kinds and four resolver configurations: exactly one record after "
+         "Location, no write, superfluous WriteHeader calls after the response started, and panic, in five handler kinds and four resolver configurations: exactly one record after "
          "the handler, level by status class, status/method/host/path attributes, location rule, message rule; and A/B "
          "against the same router without the middleware (identical status, headers, bytes, panic value).",
     design="5 C20", technique=T)
@@ -152,17 +158,20 @@ claimed["C18"] = dict(
     text="Three obligations by bounded symbolic execution of the real clientip package: (a) for every IPv4 and IPv6 address "
          "(symbolic 32/128-bit value through the real net.IPNet.Contains) membership in the default / optional range groups "
          "implies membership in an independent list of non-globally-routable ranges; (b) for header lists built from an "
-         "entry catalogue, each strategy returns exactly the designated entry or an error; (c) for the rightmost "
+         "entry catalogue, each strategy returns exactly the designated entry or an error (the non-private strategies under "
+         "all 8 combinations of their range options); (c) for the rightmost "
          "strategies an arbitrary attacker prefix of n bytes (full alphabet, commas included) never changes the result. "
          "The crash monitor shows no reachable panic on these inputs. The IP-literal grammar itself is not symbolic.",
     design="5 C18", technique=T)
 
 claimed["C06"] = dict(
     text="Bounded symbolic execution of every read entry point of the real code while the writer lock is held by a write "
-         "transaction parked at each stage of its life (mutex model with an owner): for every host, path and pattern within "
+         "transaction parked at each stage of its life, including readers (Lookup context, Iter, read-only Txn) obtained on a "
+         "tree that was replaced before the writer parked, and a 30-level deep tree (mutex model with an owner): for every host, path and pattern within "
          "the bounds and every feasible path of the read code, no Lock on a held mutex is reached (it would be reported as "
          "a blocked-forever violation with its witness); conversely a second writer does block. This is the behavioural "
-         "counterpart, over all inputs in the bound, of the call-graph argument that read paths never take the writer lock.",
+         "counterpart, over all inputs in the bound, of the call-graph argument that read paths never take the writer lock; "
+         "code no explored input reaches is not covered.",
     design="5 C06", technique="bounded symbolic execution of go/ssa + SMT with a mutex-owner (blocked) monitor; native replay by timeout")
 
 claimed["C05"] = dict(
@@ -170,10 +179,10 @@ claimed["C05"] = dict(
          "synchronisation granularity (mutex, atomic pointer, sync.Pool, thread start/exit) with a pre-emption bound, of "
          "small thread programs over the real code: writers against writers (different / same route, Update vs Delete), a "
          "two-route transaction against a reader, a writer against two requests, an aborted transaction against a reader, "
-         "two requests, two NewRoute calls. On every schedule the observable obligations hold (no lost update, exactly one "
+         "two requests, two NewRoute calls, Update+write-below and Truncate+refill transactions against a reader. On every schedule the observable obligations hold (no lost update, exactly one "
          "winner, all-or-nothing snapshots, monotonic reads, aborted writes invisible, no panic) and the vector-clock "
          "happens-before monitor reports no unordered conflicting access on any heap cell.",
-    design="5 C05", technique="bounded symbolic execution of go/ssa with schedule choices as decision variables + happens-before race monitor; races confirmed with go test -race",
+    design="5 C05", technique="bounded symbolic execution of go/ssa with schedule choices as decision variables + happens-before race monitor; races confirmed with go test -race, schedule-dependent assertion failures replayed natively under the same schedule (instrumented overlay build)",
     note="Weakest fit of the technique: pattern choices and schedules are enumerated by the executor's decision search (the solver only keeps the path condition); thread counts, operation counts and pre-emptions are small and stated.")
 
 reasons = {}
